@@ -44,8 +44,8 @@ type netFD struct {
 	network       string // tcp, tcp4, tcp6, unix, unixgram, unixpacket
 	localAddr     net.Addr
 	remoteAddr    net.Addr
-	// for detaching conn from poller
-	detaching bool
+	// for detaching conn from poller: set by Detach (user goroutine), read by Close (whoever runs the finalizer)
+	detaching int32
 }
 
 func newNetFD(fd, family, sotype int, net string) *netFD {
